@@ -9,7 +9,8 @@ A. correspondence (impl vs Lean model through the driver, `splitscript`): `helpe
    piece, i.e. to which piece blanks and comments are attached), the texts `_eval` hands to the analyser (statement tap on
    `SqlFluffLineageAnalyzer.analyze`; exact), `LineageRunner.statements()` (modulo blanks — sqlparse's choice between
    blank / line break / nothing when a comment is removed is not modelled) and the count; bounded-exhaustive over separator
-   / lead / tail noise of <= 3 (thorough 4) atoms, seeded random for 1–5 statements; plus whole corpus strings.
+   / lead / tail noise of <= 3 (thorough 4) atoms, seeded random for 1–5 statements; plus whole corpus strings; plus raw
+   strings (every string of length <= 4/5 over a 9-character alphabet, seeded random over a larger one) for the lexer.
 B. property oracle that does NOT use the model (the expected answer is known from how the script was assembled): as many
    pieces as statements; the i-th piece is a substring of the script lying behind the (i-1)-th, covering the i-th
    statement's span and ending before the (i+1)-th statement; the i-th reported statement equals the i-th statement
@@ -415,7 +416,7 @@ def gen_cases(chk, n_gen, n_all):
         yield {"lead": [], "items": [[a, nz]]}, "E2-tail"
         if len(nz) < k:
             yield {"lead": [], "items": [[a, nz + ["LDE"]]]}, "E2-tail"
-    n_rand = 25000 if chk.tier == "thorough" else 1100
+    n_rand = 40000 if chk.tier == "thorough" else 1100
     rng = chk.rng
     for _ in range(n_rand):
         n = rng.choice([1, 2, 2, 3, 3, 4, 4, 5, 5])
@@ -487,7 +488,16 @@ def part_ab(chk, drv, impl, stmts, n_gen):
         reqs.append({"cmd": "splitscript", "lead": lead, "items": items})
     answers = drv.ask(reqs, chunk=4000) if drv is not None else [None] * len(cases)
     stats = {"cases": 0, "outside_class": {}, "by_space": {}, "statements_per_script": {}, "corpus_statements_used": 0}
+    # the enumerated spaces are always completed; the random tail stops at its time budget (scripts with tpcds-sized
+    # statements cost sqlparse tens of milliseconds each)
+    budget = (7 * 60) if chk.tier == "thorough" else 30
+    t_rand = None
     for (case, tag), ans in zip(cases, answers):
+        if tag == "random":
+            t_rand = t_rand or time.time()
+            if time.time() - t_rand > budget:
+                stats["random_stopped_by_budget_after"] = stats["by_space"].get("random", 0)
+                break
         lead, items = case_forms(case, stmts)
         script, spans = assemble(lead, items)
         if ans is not None:
@@ -553,6 +563,45 @@ def part_whole_corpus(chk, drv, impl, whole):
                 chk.stale.append({"kind": "corpus-string-statements", "source": src, "script": v, "impl": got2,
                                   "model": a["statements"]})
     return n
+
+
+CHAR_ALPHA = ["a", " ", "\n", ";", "'", "-", "/", "*", "#"]
+RAND_ALPHA = ["a", "b", " ", " ", "\n", ";", ";", "'", '"', "`", "-", "-", "/", "*", "#", "(", ")", "+", "\t", "end", "1", ".",
+              "=", "@", "%", "|", "case", "--", "/*", "*/", "# ", "''", "go", "select"]
+
+
+def part_chars(chk, drv, impl):
+    """lexer-level correspondence on raw strings (no assembly, hence no oracle: a difference is a stale correspondence):
+    EVERY string of length <= 4 (thorough 5) over a 9-character alphabet, then seeded random strings over a larger one;
+    strings outside level0 are skipped (counted)."""
+    if drv is None:
+        return {}
+    k = 5 if chk.tier == "thorough" else 4
+    strings = ["".join(t) for n in range(1, k + 1) for t in itertools.product(CHAR_ALPHA, repeat=n)]
+    n_exh = len(strings)
+    n_rand = 30000 if chk.tier == "thorough" else 2000
+    for _ in range(n_rand):
+        strings.append("".join(chk.rng.choice(RAND_ALPHA) for _ in range(chk.rng.randint(1, 14))))
+    ans = drv.ask([{"cmd": "split", "s": v} for v in strings], chunk=20000)
+    stats = {"exhaustive_strings": n_exh, "random_strings": n_rand, "inside_class": 0, "outside_class": {}}
+    for v, a in zip(strings, ans):
+        if "error" in a:
+            raise Infra("model driver error: " + a["error"])
+        if not a["level0"]:
+            stats["outside_class"][a["why"]] = stats["outside_class"].get(a["why"], 0) + 1
+            continue
+        stats["inside_class"] += 1
+        got = impl.helpers.split(v)
+        chk.count("chars:" + v, len(got) >= 2 or (";" in v and len(got) <= 1 and len(v) > 2))
+        if got != a["split"]:
+            if len(chk.stale) < 20:
+                chk.stale.append({"kind": "string", "script": v, "impl": got, "model": a["split"]})
+            continue
+        if a["level0stripped"]:
+            got2 = impl.helpers.split(v.strip())
+            if got2 != a["runnerSplit"] and len(chk.stale) < 20:
+                chk.stale.append({"kind": "string-stripped", "script": v, "impl": got2, "model": a["runnerSplit"]})
+    return stats
 
 
 # ------------------------------------------------------------------------------------------------ part C
@@ -782,9 +831,11 @@ def run(chk):
     log(f"[c05] A/B done {time.time() - t0:.0f}s: {ab['cases']} scripts, outside class {ab['outside_class']}")
     nwhole = 0
     singles = Singles(impl)
-    c = d = {}
+    c = d = chars = {}
     if not chk.violations:
         nwhole = part_whole_corpus(chk, drv, impl, whole)
+        chars = part_chars(chk, drv, impl)
+        log(f"[c05] strings done {time.time() - t0:.0f}s: {chars}")
         c = part_c(chk, impl, stmts, n_gen, singles)
         log(f"[c05] C done {time.time() - t0:.0f}s: {c}")
     if not chk.violations:
@@ -799,12 +850,13 @@ def run(chk):
     chk.coverage.update({
         "exhaustive": True,
         "exhaustive_space": "E1 (2 statements x every separator of <=3/4 noise atoms containing `;`), E2 (1 statement x every "
-                            "lead / every tail of <=3/4 noise atoms); the random part and parts C/D are sampled",
+                            "lead / every tail of <=3/4 noise atoms), every string of length <=4/5 over " + repr("".join(CHAR_ALPHA))
+                            + "; the random parts and parts C/D are sampled",
         "scripts_split_vs_model_and_oracle": ab["cases"], "by_space": ab["by_space"],
         "statements_per_script": ab["statements_per_script"], "outside_class": ab["outside_class"],
         "corpus_strings_by_class": corpus_dist, "corpus_statements_in_pool": len(stmts) - n_gen,
         "corpus_statement_occurrences": ab["corpus_statements_used"], "whole_corpus_strings_vs_model": nwhole,
-        "script_vs_per_statement": c, "tsql_no_semicolon": d,
+        "raw_strings_vs_model": chars, "script_vs_per_statement": c, "tsql_no_semicolon": d,
         "noise_atoms": {k: render_forms(v) for k, v in ATOMS.items()},
         "generated_pool": [s.text for s in stmts[:n_gen]],
     })
